@@ -10,6 +10,8 @@ import (
 	"github.com/smart-core-os/sc-api/go/traits"
 	"github.com/smart-core-os/sc-api/go/types"
 	"google.golang.org/grpc"
+	"google.golang.org/grpc/codes"
+	"google.golang.org/grpc/status"
 	"google.golang.org/protobuf/proto"
 	"google.golang.org/protobuf/types/known/durationpb"
 
@@ -44,8 +46,25 @@ func rampThenPlain(r *vk.Run) {
 			if !r.Mine(no) || !r.Selected("C14/lightpb.MemoryDevice/Brightness") {
 				continue
 			}
+			// the ramp writer is a goroutine of the device: if it panics the process dies, the guard names the case
+			if !r.Guard("C14/lightpb.MemoryDevice/Brightness/ramp-then-plain/crash", map[string]any{"ramp": c.ramp.String(), "plain_update_after": c.delay.String()}) {
+				continue
+			}
 			rampCase(r, c.ramp, c.delay)
+			r.Unguard()
 		}
+	}
+	// forced: the plain Update commits exactly while a tick of the ramp is between its read and the write lock
+	for k := 0; k < r.Pick(2, 12); k++ {
+		no++
+		if !r.Mine(no) || !r.Selected("C14/lightpb.MemoryDevice/Brightness") {
+			continue
+		}
+		if !r.Guard("C14/lightpb.MemoryDevice/Brightness/ramp-then-plain/crash", map[string]any{"forced": "plain Update commits while a ramp tick is between its read and the lock"}) {
+			continue
+		}
+		rampConflictCase(r)
+		r.Unguard()
 	}
 	if r.Selected("C14/lightpb.MemoryDevice/Brightness") {
 		r.Require("ramp/cases", len(cases)*reps/2)
@@ -135,9 +154,17 @@ func rampCase(r *vk.Run, ramp, delay time.Duration) {
 	if rest := delay - time.Since(started); rest > 0 {
 		time.Sleep(rest)
 	}
-	resp, err := dev.UpdateBrightness(ctx, &traits.UpdateBrightnessRequest{Name: "d", Brightness: &traits.Brightness{LevelPercent: 5}})
+	// a plain Update that loses a race with a tick of the ramp is refused with Aborted, the client tries again
+	var resp *traits.Brightness
+	for try := 0; try < 50; try++ {
+		resp, err = dev.UpdateBrightness(ctx, &traits.UpdateBrightnessRequest{Name: "d", Brightness: &traits.Brightness{LevelPercent: 5}})
+		if status.Code(err) != codes.Aborted {
+			break
+		}
+		r.Count("ramp/plain-update-retried-after-aborted", 1)
+	}
 	if err != nil {
-		r.Inconclusive(key("setup"), desc+": the plain Update failed: "+err.Error())
+		r.Count("ramp/plain-update-rejected", 1)
 		return
 	}
 	resp = proto.Clone(resp).(*traits.Brightness)
@@ -177,4 +204,59 @@ func renderBrightness(l []*traits.Brightness) string {
 		ss = append(ss, vk.JSON(b))
 	}
 	return "[" + strings.Join(ss, ", ") + "]"
+}
+
+// rampConflictCase: a ramp of 400 ms is started; the first write of the ramp goroutine (a tick) is held between its
+// optimistic read and the write lock (hook gau.beforeLock) while the client's plain Update commits; then the tick
+// goes on and finds the value changed under it. The ramp has to give way like after any other client Update: the
+// process lives, and once the ramp goroutine is gone Get returns the plain Update's response.
+func rampConflictCase(r *vk.Run) {
+	sched := vk.NewSched()
+	defer sched.Close()
+	dev := lightpb.NewMemoryDevice()
+	ctx, cancel := context.WithCancel(context.Background())
+	defer cancel()
+	key := func(c string) string { return "C14/lightpb.MemoryDevice/Brightness/ramp-then-plain/" + c }
+	desc := "lightpb.MemoryDevice: UpdateBrightness(level 80, tween 400ms); a tick of the ramp is held between its read and the write lock while UpdateBrightness(level 5) commits"
+	_, err := dev.UpdateBrightness(ctx, &traits.UpdateBrightnessRequest{Name: "d", Brightness: &traits.Brightness{LevelPercent: 80, BrightnessTween: &types.Tween{TotalDuration: durationpb.New(400 * time.Millisecond)}}})
+	if err != nil {
+		r.Count("ramp/forced-conflict-setup-failed", 1)
+		return
+	}
+	seen := 0
+	park := sched.ParkAt("gau.beforeLock", func(_, _ any) bool { seen++; return seen == 1 }) // the next write is the ramp's tick
+	arrived := false
+	for i := 0; i < 300 && !arrived; i++ {
+		time.Sleep(5 * time.Millisecond)
+		arrived = park.Arrived()
+	}
+	if !arrived {
+		park.Release()
+		r.Count("ramp/forced-conflict-window-not-reached", 1)
+		return
+	}
+	resp, err := dev.UpdateBrightness(ctx, &traits.UpdateBrightnessRequest{Name: "d", Brightness: &traits.Brightness{LevelPercent: 5}})
+	park.Release()
+	if err != nil {
+		r.Count("ramp/forced-conflict-plain-update-rejected", 1)
+		return
+	}
+	resp = proto.Clone(resp).(*traits.Brightness)
+	gone := false
+	for i := 0; i < 1000 && !gone; i++ {
+		time.Sleep(10 * time.Millisecond)
+		gone = rampGoroutines() == 0
+	}
+	if !gone {
+		r.Inconclusive(key("ramp-goroutine-still-there"), desc+": the ramp goroutine is still running 10 s later")
+		return
+	}
+	vk.Quiesce()
+	r.Eval(1)
+	r.Count("ramp/forced-conflict-cases", 1)
+	r.Distinct("ramp|forced-conflict")
+	got, _ := dev.GetBrightness(ctx, &traits.GetBrightnessRequest{Name: "d"})
+	if !proto.Equal(got, resp) {
+		r.Violation(key("get"), fmt.Sprintf("%s and returned %s; after the ramp goroutine ended, with no further Update, Get returns %s", desc, vk.JSON(resp), vk.JSON(got)), map[string]any{"forced": true})
+	}
 }
